@@ -19,7 +19,7 @@ From RV Require Import Base.Prelude Base.IdSet M.Util M.UtilProofs M.Proto M.Mem
   M.RaftLogProofsSlice M.RaftLogProofsHistory
   M.RaftProofsC15 M.RaftProofsC09 M.RaftProofsC08 M.RaftProofsC13 M.RaftProofsC07
   M.RaftProofsRepInv
-  M.RaftProofsC20 M.RaftProofsC20Inv M.RaftProofsC20Safe M.RaftProofsC20Shape
+  M.RaftProofsC20 M.RaftProofsC20Sites M.RaftProofsC20Inv M.RaftProofsC20Safe M.RaftProofsC20Shape
   M.RaftProofsC20Shape2 M.RaftProofsC20Shape3.
 From RecordUpdate Require Import RecordSet.
 Import RecordSetNotations.
@@ -2073,3 +2073,283 @@ Proof. reflexivity. Qed.
 
 Lemma op_snap_def o s : op_snap o s <-> match o with OStep m => snap_of m s | _ => False end.
 Proof. reflexivity. Qed.
+
+(* ================================================================== *)
+(* Part 5. Site 1422 (commit_info: "last committed entry is missing")   *)
+(* ================================================================== *)
+(* the term at the commit index is known: either a snapshot is pending, or the storage
+   still has its snapshot point as first index - 1, or the commit index is a held entry *)
+Definition TK (l : raft_log) : Prop :=
+  match u_snapshot (unst l) with
+  | Some _ => True
+  | None => first_of (store l) - 1 = snap_index (store l) \/ first_of (store l) <= committed l
+  end.
+
+Notation s1422 := site_l_commit_info.
+
+Lemma tk_commit_info rw l : RepInv rw l -> TK l -> exists v, commit_info l = Ok v.
+Proof.
+  intros HI Ht. rewrite (commit_info_abs rw l HI).
+  pose proof (base_le_committed rw l HI) as Hb. pose proof (ri_commit rw l HI) as Hc.
+  unfold ll_term.
+  destruct ((committed l <? ll_base (abs l)) || (ll_last (abs l) <? committed l)) eqn:E; [eauto|].
+  destruct (committed l =? ll_base (abs l)) eqn:E2.
+  - assert (Hbt : exists t, ll_bterm (abs l) = Some t).
+    { unfold TK in Ht. unfold abs in *. destruct (u_snapshot (unst l)) as [s|]; cbn [ll_bterm ll_base] in *; [eauto|].
+      unfold store_bterm. destruct Ht as [Ht|Ht].
+      - rewrite Ht, N.eqb_refl. eauto.
+      - pose proof (first_pos _ (ri_store rw l HI)). lia. }
+    destruct Hbt as [t ->]. eauto.
+  - destruct (ll_get (abs l) (committed l)); eauto.
+Qed.
+
+Lemma lrel0_TK Q l l' : lrel0 Q l l' -> TK l -> TK l'.
+Proof.
+  intros (A1 & A2 & A3 & _) Ht. unfold TK in *.
+  destruct (u_snapshot (unst l')) eqn:E'; [exact I|].
+  destruct (u_snapshot (unst l)) eqn:E; [exfalso; apply A3; [discriminate|reflexivity]|].
+  rewrite A1. destruct Ht as [Ht|Ht]; [left; exact Ht|right; lia].
+Qed.
+
+Lemma TK_set_limit l k : TK l -> TK (set_limit l k).
+Proof. exact (fun H => H). Qed.
+
+Tactic Notation "no22" constr(lem) hyp(H) :=
+  exfalso; eapply (notin_b s1422); [|eapply lem; exact H]; vm_compute; reflexivity.
+
+Lemma commit_info_22 rw l : RepInv rw l -> TK l -> commit_info l = Panic s1422 -> False.
+Proof. intros HI Ht H. destruct (tk_commit_info rw l HI Ht) as [v E]. congruence. Qed.
+
+Lemma poll_gen_22 rc r from v :
+  poll_gen rc r from v = Panic s1422 ->
+  exists r0, r_log r0 = r_log r /\ rc r0 = Panic s1422.
+Proof.
+  unfold poll_gen. intros H.
+  set (r0 := r <| r_prs := (r_prs r) <| t_votes := Quorum.record_vote (t_votes (r_prs r)) from v |> |>) in *.
+  assert (E0 : r_log r0 = r_log r) by reflexivity. clearbody r0.
+  destruct (Quorum.tracker_vote_result _ _ _).
+  - discriminate.
+  - apply bind_panic in H. destruct H as [H|(x & _ & H)]; [|discriminate].
+    no22 become_follower_sites_explicit H.
+  - destruct (role_eqb (r_state r0) PreCandidate).
+    + apply bind_panic in H. destruct H as [H|(x & _ & H)]; [|discriminate]. eauto.
+    + apply bind_panic in H. destruct H as [H|(x & _ & H)]; [no22 become_leader_sites_explicit H|].
+      apply bind_panic in H. destruct H as [H|(y & _ & H)]; [|discriminate].
+      no22 bcast_append_sites_explicit H.
+Qed.
+
+Lemma campaign_real_22 rw tr r :
+  LI rw r -> room 1 r -> TK (r_log r) -> campaign_real tr r = Panic s1422 -> False.
+Proof.
+  unfold campaign_real. intros HI Hroom Ht H.
+  apply bind_panic in H. destruct H as [H|(r1 & E1 & H)]; [no22 become_candidate_sites_explicit H|].
+  pose proof (become_candidate_log _ _ E1) as El.
+  apply bind_panic in H. destruct H as [H|([r2 res] & E2 & H)].
+  { apply poll_gen_22 in H. destruct H as (r0 & _ & H). discriminate. }
+  assert (H1 : LI rw r1) by (eapply LI_same; eassumption).
+  assert (R1 : room 1 r1) by (eapply room_same; [|exact Hroom]; rewrite El; reflexivity).
+  assert (H2 : LI rw r2).
+  { eapply poll_gen_pres; [|exact E2|exact H1|exact R1]. intros ra ra' Hp; discriminate. }
+  assert (T2 : TK (r_log r2)).
+  { assert (RR : rrel (fun _ => False) r1 r2).
+    { eapply poll_gen_rrel; [|exact E2]. intros ra ra' Hp; discriminate. }
+    destruct RR as [RR _]. eapply lrel0_TK; [exact RR|]. rewrite El. exact Ht. }
+  destruct res.
+  - apply bind_panic in H. destruct H as [H|(ci & _ & H)]; [exact (commit_info_22 rw _ H2 T2 H)|].
+    no22 send_vote_requests_sites_explicit H.
+  - apply bind_panic in H. destruct H as [H|(ci & _ & H)]; [exact (commit_info_22 rw _ H2 T2 H)|].
+    no22 send_vote_requests_sites_explicit H.
+  - discriminate.
+Qed.
+
+Lemma poll_22 rw r from v :
+  LI rw r -> room 1 r -> TK (r_log r) -> poll r from v = Panic s1422 -> False.
+Proof.
+  unfold poll. intros HI Hroom Ht H. apply poll_gen_22 in H. destruct H as (r0 & E0 & H).
+  eapply (campaign_real_22 rw); [| | |exact H].
+  - eapply LI_same; eassumption.
+  - eapply room_same; [|exact Hroom]. rewrite E0. reflexivity.
+  - rewrite E0. exact Ht.
+Qed.
+
+Lemma campaign_pre_22 rw r :
+  LI rw r -> room 1 r -> TK (r_log r) -> campaign_pre r = Panic s1422 -> False.
+Proof.
+  unfold campaign_pre. intros HI Hroom Ht H.
+  apply bind_panic in H. destruct H as [H|(r1 & E1 & H)]; [no22 become_pre_candidate_sites_explicit H|].
+  pose proof (become_pre_candidate_log _ _ E1) as El.
+  assert (H1 : LI rw r1) by (eapply LI_same; eassumption).
+  assert (R1 : room 1 r1) by (eapply room_same; [|exact Hroom]; rewrite El; reflexivity).
+  assert (T1 : TK (r_log r1)) by (rewrite El; exact Ht).
+  apply bind_panic in H. destruct H as [H|([r2 res] & E2 & H)]; [exact (poll_22 rw _ _ _ H1 R1 T1 H)|].
+  pose proof (poll_pres rw _ _ _ _ _ E2 H1 R1) as H2.
+  assert (T2 : TK (r_log r2)).
+  { destruct (poll_rrel (fun _ => False) _ _ _ _ _ E2) as [RR _]. eapply lrel0_TK; eassumption. }
+  destruct res.
+  - apply bind_panic in H. destruct H as [H|(ci & _ & H)]; [exact (commit_info_22 rw _ H2 T2 H)|].
+    no22 send_vote_requests_sites_explicit H.
+  - apply bind_panic in H. destruct H as [H|(ci & _ & H)]; [exact (commit_info_22 rw _ H2 T2 H)|].
+    no22 send_vote_requests_sites_explicit H.
+  - discriminate.
+Qed.
+
+Lemma hup_22 rw r tl :
+  LI rw r -> room 1 r -> TK (r_log r) -> hup r tl = Panic s1422 -> False.
+Proof.
+  unfold hup. intros HI Hroom Ht H.
+  destruct (is_leader r); [discriminate|]. destruct (negb (r_promotable r)); [discriminate|].
+  apply bind_panic in H. destruct H as [H|(low & _ & H)].
+  { destruct (u_maybe_first_index (unst (r_log r))); [discriminate|].
+    apply bind_panic in H. destruct H as [H|(fi & _ & H)]; [|discriminate].
+    no22 l_first_index_sites_explicit H. }
+  apply bind_panic in H. destruct H as [H|(b & _ & H)]; [no22 has_unapplied_conf_changes_sites_explicit H|].
+  destruct b; [discriminate|].
+  destruct tl; [exact (campaign_real_22 rw _ _ HI Hroom Ht H)|].
+  destruct (r_pre_vote r); [exact (campaign_pre_22 rw _ HI Hroom Ht H)|exact (campaign_real_22 rw _ _ HI Hroom Ht H)].
+Qed.
+
+Ltac br22 H :=
+  first [ discriminate H
+        | no22 send_sites_explicit H | no22 become_follower_sites_explicit H
+        | no22 handle_append_entries_sites_explicit H | no22 handle_heartbeat_sites_explicit H
+        | no22 handle_snapshot_sites_explicit H | no22 maybe_commit_by_vote_sites_explicit H
+        | no22 l_maybe_commit_sites_explicit H | no22 is_up_to_date_sites_explicit H
+        | no22 vote_resp_msg_type_sites_explicit H | no22 step_leader_sites_explicit H ].
+
+Lemma step_candidate_22 rw r m :
+  LI rw r -> msg_wf (last_index (r_log r)) m -> TK (r_log r) ->
+  step_candidate r m = Panic s1422 -> False.
+Proof.
+  unfold step_candidate. intros HI (We & _) Ht H.
+  destruct (m_type m =? MsgPropose); [discriminate|].
+  match type of H with (if ?c then _ else _) = _ => destruct c end.
+  { destruct (negb (r_term r =? m_term m)); [vm_compute in H; discriminate|].
+    apply bind_panic in H. destruct H as [H|(r1 & _ & H)]; [br22 H|].
+    apply bind_panic in H. destruct H as [H|(r2 & _ & H)]; [|discriminate].
+    destruct (m_type m =? MsgAppend); [br22 H|]. destruct (m_type m =? MsgHeartbeat); br22 H. }
+  match type of H with (if ?c then _ else _) = _ => destruct c eqn:E2 end; [|discriminate].
+  match type of H with (if ?c then _ else _) = _ => destruct c end; [discriminate|].
+  specialize (We (elect_type_vote_resp _ E2)).
+  apply bind_panic in H. destruct H as [H|(x & _ & H)]; [exact (poll_22 rw _ _ _ HI We Ht H)|].
+  apply bind_panic in H. destruct H as [H|(y & _ & H)]; [br22 H|discriminate].
+Qed.
+
+Lemma step_follower_22 rw r m :
+  LI rw r -> msg_wf (last_index (r_log r)) m -> TK (r_log r) ->
+  step_follower r m = Panic s1422 -> False.
+Proof.
+  unfold step_follower. intros HI (We & _) Ht H.
+  destruct (m_type m =? MsgPropose).
+  { destruct (r_leader_id r =? INVALID_ID); [discriminate|].
+    destruct (r_disable_proposal_forwarding r); [discriminate|].
+    apply bind_panic in H. destruct H as [H|(x & _ & H)]; [br22 H|discriminate]. }
+  destruct (m_type m =? MsgAppend).
+  { apply bind_panic in H. destruct H as [H|(x & _ & H)]; [br22 H|discriminate]. }
+  destruct (m_type m =? MsgHeartbeat).
+  { apply bind_panic in H. destruct H as [H|(x & _ & H)]; [br22 H|discriminate]. }
+  destruct (m_type m =? MsgSnapshot).
+  { apply bind_panic in H. destruct H as [H|(x & _ & H)]; [br22 H|discriminate]. }
+  destruct (m_type m =? MsgTransferLeader).
+  { destruct (r_leader_id r =? INVALID_ID); [discriminate|].
+    apply bind_panic in H. destruct H as [H|(x & _ & H)]; [br22 H|discriminate]. }
+  destruct (m_type m =? MsgTimeoutNow) eqn:Etn.
+  { destruct (r_promotable r); [|discriminate].
+    apply bind_panic in H. destruct H as [H|(x & _ & H)]; [|discriminate].
+    eapply (hup_22 rw); [exact HI| |exact Ht|exact H].
+    apply We. unfold elect_type. rewrite Etn. rewrite ?orb_true_r. reflexivity. }
+  destruct (m_type m =? MsgReadIndex).
+  { destruct (r_leader_id r =? INVALID_ID); [discriminate|].
+    apply bind_panic in H. destruct H as [H|(x & _ & H)]; [br22 H|discriminate]. }
+  destruct (m_type m =? MsgReadIndexResp); [|discriminate].
+  destruct (m_entries m) as [|e [|e2 es]]; try discriminate.
+  apply bind_panic in H. destruct H as [H|(x & _ & H)]; [br22 H|discriminate].
+Qed.
+
+Lemma step_body_22 rw r m :
+  LI rw r -> msg_wf (last_index (r_log r)) m -> TK (r_log r) ->
+  step_body r m = Panic s1422 -> False.
+Proof.
+  unfold step_body. intros HI W Ht H.
+  destruct (m_type m =? MsgHup) eqn:Eh.
+  { apply bind_panic in H. destruct H as [H|(x & _ & H)]; [|discriminate].
+    eapply (hup_22 rw); [exact HI| |exact Ht|exact H].
+    apply (proj1 W). unfold elect_type. rewrite Eh. reflexivity. }
+  match type of H with (if ?c then _ else _) = _ => destruct c end.
+  { apply bind_panic in H. destruct H as [H|(utd & _ & H)]; [br22 H|].
+    apply bind_panic in H. destruct H as [H|(rt & _ & H)]; [br22 H|].
+    match type of H with (if ?c then _ else _) = _ => destruct c end.
+    - apply bind_panic in H. destruct H as [H|(r1 & _ & H)]; [br22 H|].
+      destruct (m_type m =? MsgRequestVote); discriminate.
+    - apply bind_panic in H. destruct H as [H|(ci & _ & H)]; [exact (commit_info_22 rw _ HI Ht H)|].
+      apply bind_panic in H. destruct H as [H|(r1 & _ & H)]; [br22 H|].
+      apply bind_panic in H. destruct H as [H|(r2 & _ & H)]; [br22 H|discriminate]. }
+  unfold step_role in H. destruct (r_state r).
+  - eapply step_follower_22; eassumption.
+  - eapply step_candidate_22; eassumption.
+  - br22 H.
+  - eapply step_candidate_22; eassumption.
+Qed.
+
+Theorem step_22 rw r m :
+  LI rw r -> msg_wf (last_index (r_log r)) m -> TK (r_log r) -> step r m = Panic s1422 -> False.
+Proof.
+  intros HI W Ht H. rewrite step_decompose in H.
+  apply bind_panic in H. destruct H as [H|(pre & E & H)].
+  { unfold step_prologue in H. destruct (m_term m =? 0); [discriminate|].
+    destruct (r_term r <? m_term m).
+    - match type of H with (if ?c then _ else _) = _ => destruct c end; [discriminate|].
+      match type of H with (if ?c then _ else _) = _ => destruct c end; [discriminate|].
+      match type of H with (if ?c then _ else _) = _ => destruct c end;
+        (apply bind_panic in H; destruct H as [H|(x & _ & H)]; [br22 H|discriminate]).
+    - destruct (m_term m <? r_term r); [|discriminate].
+      match type of H with (if ?c then _ else _) = _ => destruct c end.
+      + apply bind_panic in H. destruct H as [H|(x & _ & H)]; [br22 H|discriminate].
+      + match type of H with (if ?c then _ else _) = _ => destruct c end; [|discriminate].
+        apply bind_panic in H. destruct H as [H|(x & _ & H)]; [br22 H|discriminate]. }
+  apply step_prologue_spec in E. destruct pre as [[r1 c1]|r1]; [discriminate|].
+  destruct E as [-> |(_ & l & Hbf)]; [eapply step_body_22; eassumption|].
+  destruct (become_follower_pres rw _ _ _ _ Hbf HI) as [H1 L1].
+  eapply (step_body_22 rw); [exact H1| | |exact H].
+  - rewrite L1. exact W.
+  - rewrite (become_follower_log _ _ _ _ Hbf). apply TK_set_limit. exact Ht.
+Qed.
+
+Theorem tick_22 rw r : LI rw r -> room 1 r -> TK (r_log r) -> tick r = Panic s1422 -> False.
+Proof.
+  unfold tick. intros HI Hroom Ht H.
+  assert (Hel : tick_election r = Panic s1422 -> False).
+  { unfold tick_election. intros He.
+    match type of He with (if ?c then _ else _) = _ => destruct c end; [discriminate|].
+    apply bind_panic in He. destruct He as [He|(x & _ & He)]; [|discriminate].
+    eapply (step_22 rw); [| | |exact He]; [exact HI| |exact Ht].
+    unfold msg_wf. cbn. splits; try (intros E; discriminate). intros _. exact Hroom. }
+  assert (Hhb : tick_heartbeat r = Panic s1422 -> False).
+  { unfold tick_heartbeat. intros He.
+    apply bind_panic in He. destruct He as [He|([r1 hr] & E1 & He)].
+    - match type of He with (if ?c then _ else _) = _ => destruct c end; [|discriminate].
+      apply bind_panic in He. destruct He as [He|([ry hy] & _ & He)]; [|discriminate].
+      destruct (r_check_quorum _); [|discriminate].
+      apply bind_panic in He. destruct He as [He|(z & _ & He)]; [|discriminate].
+      eapply (step_22 rw); [| | |exact He]; [exact HI| |exact Ht].
+      apply msg_wf_plain; cbn; [reflexivity|discriminate|discriminate|discriminate].
+    - assert (H1 : LI rw r1 /\ TK (r_log r1)).
+      { match type of E1 with (if ?c then _ else _) = _ => destruct c end;
+          [|inversion E1; subst; split; assumption].
+        inv_bind E1. destruct x as [rb hb]. inversion E1; subst.
+        assert (Hb : LI rw rb /\ TK (r_log rb)).
+        { destruct (r_check_quorum _); [|inversion Hx; subst; split; assumption].
+          inv_bind Hx. inversion Hx; subst. destruct x as [rc cc]. cbn [fst].
+          split.
+          - eapply step_pres; [exact Hx0| |exact HI].
+            apply msg_wf_plain; cbn; [reflexivity|discriminate|discriminate|discriminate].
+          - apply (step_plain_rrel (fun _ => False)) in Hx0; [|cbn; discriminate].
+            destruct Hx0 as [RR _]. eapply lrel0_TK; [exact RR|exact Ht]. }
+        match goal with |- LI rw (if ?c then _ else _) /\ _ => destruct c end; exact Hb. }
+      destruct H1 as [H1 T1].
+      destruct (negb (is_leader r1)); [discriminate|].
+      match type of He with (if ?c then _ else _) = _ => destruct c end; [|discriminate].
+      apply bind_panic in He. destruct He as [He|(z & _ & He)]; [|discriminate].
+      eapply (step_22 rw); [| | |exact He]; [exact H1| |exact T1].
+      apply msg_wf_plain; cbn; [reflexivity|discriminate|discriminate|discriminate]. }
+  destruct (r_state r); auto.
+Qed.
